@@ -175,6 +175,18 @@ def b_quad(ctx):
                 tol = 1e-6 + 5 * (h / min(sS, sL)) ** 2
                 if abs(pa - want) > tol:
                     ctx.fail('C15:arbitrary', f'pf_arbitrary_load = {pa}, closed form {want} (s_S={sS}, s_L={sL}, delta={d}, tol {tol:.2e})', {'s_S': sS, 's_L': sL, 'delta': d})
+        # optional integration limits (absolute, log10 scale): a limit at least 16 load standard deviations from the load median cuts nothing off, whichever of the two
+        # is given - medians above and below 1 (added after seed C15-f shifted the lower limit only when the upper one is given)
+        for s_med, l_med in ((300.0, 240.0), (0.004, 0.003), (1.3, 1.0)):
+            f2 = FailureProbability(s_med, sS)
+            lm2 = np.log10(l_med)
+            ref2 = float(f2.pf_norm_load(l_med, sL))
+            lo2, up2 = lm2 - 16.0 * sL, lm2 + 16.0 * sL          # exactly where the default limits are (much wider explicit limits around a needle-like load density are a matter of the adaptive quadrature, not of this clause)
+            for lname, kw in (('both', dict(lower_limit=lo2, upper_limit=up2)), ('lower only', dict(lower_limit=lo2)), ('upper only', dict(upper_limit=up2))):
+                ctx.case(True, key=(sS, sL, s_med, lname))
+                g2 = float(f2.pf_norm_load(l_med, sL, **kw))
+                if abs(g2 - ref2) > 1e-9 + 1e-6 * ref2:
+                    ctx.fail(f'C15:explicit-limits:{lname}', f'pf_norm_load({l_med}, {sL}, {kw}) = {g2}, with the default limits {ref2} (strength median {s_med}, s_S={sS})', {'s_S': sS, 's_L': sL, 'limits': lname})
         # vanishing load scatter -> deterministic load
         f = FailureProbability(300.0, sS)
         for L in (150.0, 300.0, 420.0):
